@@ -88,7 +88,7 @@ func decide(s int, cred string, required []string) (bool, interface{}, error) {
 		return true, nil, rejErr[s]
 	case "oks":
 		for _, sc := range required {
-			if !granted(sc) {
+			if !granted(s, sc) {
 				return true, nil, scopeErr[s]
 			}
 		}
